@@ -346,6 +346,36 @@ func runC06(r *core.Run) {
 			}
 		}
 	})
+	// (b2) whole valid routes inside a wrapper, and multi-character idioms (common regular-expression and quoting
+	// habits) dropped into valid routes - inside expressions, literals and between tokens. A tolerant lexer rule
+	// or pre-processing step shows only for such coordinated sequences, never for a single edited byte. The
+	// reference recogniser decides what each of these strings is.
+	wrappers := [][2]string{{`"`, `"`}, {"'", "'"}, {"`", "`"}, {"(", ")"}, {"<", ">"}, {"[", "]"}, {" ", ""}, {"", " "}, {"\t", ""}, {"", "\n"}, {"", "\r\n"}, {"\ufeff", ""}, {"", "\x00"}, {"^", "$"}, {"^", ""}, {"", "$"}, {"", "/?"}, {"", "#x"}, {"", "?x=1"}, {"GET ", ""}, {"//", ""}, {"./", ""}, {"http://h", ""}}
+	idioms := []string{"[^/]", "[^/]+", "[^/]*", "^", "$", "(?i)", "(?:", "\\/", ".*?", "[[:alpha:]]", "\\d+", "{2,3}", `"`, "'", "%2F", "%2f", "%00", "**", "***", ":", "::", "{{", "}}", "{}", "/*", "*/", "<!--", "\\", "\\\\", ", ", " ,", ";", "&&", "||", "\u200b", "\u00a0"}
+	r.Parallel("idioms", r.N(60000, 2000000), func(w *core.W, rng *rand.Rand, i int) {
+		p := parserOf(w)
+		s := randomDerivationText(rng)
+		if rng.Intn(3) == 0 {
+			wr := wrappers[rng.Intn(len(wrappers))]
+			w.Count("wrapped-valid-routes")
+			judgeParse(w, p, wr[0]+s+wr[1], "wrapped", &s)
+			return
+		}
+		id := idioms[rng.Intn(len(idioms))]
+		// positions: anywhere, or just inside an expression value if there is one
+		j := rng.Intn(len(s) + 1)
+		if k := strings.Index(s, ": /"); k >= 0 && rng.Intn(2) == 0 {
+			end := strings.Index(s[k+3:], "/")
+			if end > 0 {
+				j = k + 3 + rng.Intn(end+1)
+				w.Count("idiom-inside-expression")
+			}
+		}
+		w.Count("idiom-insertions")
+		judgeParse(w, p, s[:j]+id+s[j:], "idiom", &s)
+	})
+	r.GateCounter("wrapped-valid-routes", 1000)
+	r.GateCounter("idiom-inside-expression", 1000)
 	// (c) arbitrary bytes
 	r.Parallel("bytes", r.N(50000, 4000000), func(w *core.W, rng *rand.Rand, i int) {
 		p := parserOf(w)
